@@ -27,7 +27,7 @@ ASSUMPTIONS = [
     "order asserted for r = max|T|dz^2/Kz <= 0.5 (strictly inside the property's resolved regime r <= 1, where pre-asymptotic ratios of the correct scheme go down to 5.35) and growth <= exp(10) so that rounding stays below 1e-7",
 ]
 TOLERANCES = {"A": "1e-11 * max(|field|, |background|)", "B": "ratio E(n)/E(2n) >= 5.5 (design order 3 -> 8)"}
-BUDGET = {"quick": dict(examples=450, shards=1), "thorough": dict(examples=2300, shards=16)}
+BUDGET = {"quick": dict(examples=1200, shards=1), "thorough": dict(examples=10000, shards=16)}
 
 
 def warmup():
